@@ -79,184 +79,189 @@ def run(ctx: Context) -> None:
     ctx.check('R08.1', ok, "the per-variable files are merged and re-assembled with the cropped dataset's layout and attributes", mg, dl[0] if dl else mg.node)
 
     # ------------------------------------------------------------------ R08.2
-    md = ctx.func(f"{MASKING}.mask_grid_data_array")
-    mflow = ctx.flow(md)
-    m_p, d_p = md.params[0], md.params[1]
-    wh = [c for c in method_calls(md, 'where')]
-    ctx.need('R08.2', len(wh) == 1, "mask_grid_data_array applies one where()", md)
-    w = wh[0]
-    lps = [n for n in walk_no_nested(md.node) if isinstance(n, ast.For)]
-    ok_loop = len(lps) == 1 and norm_text(lps[0].iter) == f"{m_p}.data_vars.items()"
-    mvar = norm_text(lps[0].target.elts[1]) if ok_loop and isinstance(lps[0].target, ast.Tuple) else None
-    other = kwarg(w, 'other') or (w.args[1] if len(w.args) > 1 else None)
-    ok = (norm_text(w.func.value) == d_p and w.args and norm_text(w.args[0]) == mvar and other is not None
-          and mflow.reaches(other, lambda n: isinstance(n, ast.Call) and callee(ctx, md, n) == f"{MASKING}.find_fill_value"))
-    ctx.check('R08.2', ok, "values are kept where the mask is True and replaced by the fill value elsewhere: data_array.where(mask, other=fill)", md, w,
-              construct=norm_text(w))
-    g = [(norm_text(st.test), inb) for st, inb in enclosing_ifs(md, w)]
-    ok = ok_loop and g == [(f"dimensions >= set({mvar}.dims)", True)] and any(
-        isinstance(n, ast.Assign) and norm_text(n) == f"dimensions = set({d_p}.dims)" for n in md.body)
-    ctx.check('R08.2', ok, "a mask applies when all of its dimensions are dimensions of the variable", md, w, construct=f"mask applicability test {g}")
-    rets = md.returns()
-    in_loop = [r for r in rets if any(x is r for x in ast.walk(lps[0]))] if lps else []
-    ok = len(in_loop) == 1 and mflow.reaches(in_loop[0].value, lambda n: n is w)
-    ctx.check('R08.2', ok, "the first applicable mask is used (return inside the loop)", md, in_loop[0] if in_loop else md.node)
-    restores = {norm_text(n.targets[0]): norm_text(n.value) for n in ast.walk(md.node) if isinstance(n, ast.Assign) and isinstance(n.targets[0], ast.Attribute)}
-    ok = restores == {'new_data_array.attrs': f"{d_p}.attrs", 'new_data_array.encoding': f"{d_p}.encoding"}
-    ctx.check('R08.2', ok, "attributes and encoding of the variable are restored on the masked copy", md, md.node, construct=f"restored: {restores}")
-    untouched = [r for r in rets if r not in in_loop]
-    ok = len(untouched) == 2 and all(norm_text(r.value) == d_p for r in untouched)
-    tr = [n for n in walk_no_nested(md.node) if isinstance(n, ast.Try)]
-    ok = ok and len(tr) == 1 and any(norm_text(h.type) == 'ValueError' and any(isinstance(s, ast.Return) and norm_text(s.value) == d_p for s in h.body) for h in tr[0].handlers)
-    ctx.check('R08.2', ok, "a variable without a fill value, or with no applicable mask, is returned as the very same object (cropped, never altered)", md, md.node,
-              construct=f"unmasked exits: {[norm_text(r) for r in untouched]}")
-    fv = [c for c in calls_in(md) if callee(ctx, md, c) == f"{MASKING}.find_fill_value"]
-    ctx.check('R08.2', len(fv) == 1 and norm_text(fv[0].args[0]) == d_p, "the fill value is chosen for this variable", md, fv[0] if fv else md.node)
+    with ctx.section('R08.2'):
+        md = ctx.func(f"{MASKING}.mask_grid_data_array")
+        mflow = ctx.flow(md)
+        m_p, d_p = md.params[0], md.params[1]
+        wh = [c for c in method_calls(md, 'where')]
+        ctx.need('R08.2', len(wh) == 1, "mask_grid_data_array applies one where()", md)
+        w = wh[0]
+        lps = [n for n in walk_no_nested(md.node) if isinstance(n, ast.For)]
+        ok_loop = len(lps) == 1 and norm_text(lps[0].iter) == f"{m_p}.data_vars.items()"
+        mvar = norm_text(lps[0].target.elts[1]) if ok_loop and isinstance(lps[0].target, ast.Tuple) else None
+        other = kwarg(w, 'other') or (w.args[1] if len(w.args) > 1 else None)
+        ok = (norm_text(w.func.value) == d_p and w.args and norm_text(w.args[0]) == mvar and other is not None
+              and mflow.reaches(other, lambda n: isinstance(n, ast.Call) and callee(ctx, md, n) == f"{MASKING}.find_fill_value"))
+        ctx.check('R08.2', ok, "values are kept where the mask is True and replaced by the fill value elsewhere: data_array.where(mask, other=fill)", md, w,
+                  construct=norm_text(w))
+        g = [(norm_text(st.test), inb) for st, inb in enclosing_ifs(md, w)]
+        ok = ok_loop and g == [(f"dimensions >= set({mvar}.dims)", True)] and any(
+            isinstance(n, ast.Assign) and norm_text(n) == f"dimensions = set({d_p}.dims)" for n in md.body)
+        ctx.check('R08.2', ok, "a mask applies when all of its dimensions are dimensions of the variable", md, w, construct=f"mask applicability test {g}")
+        rets = md.returns()
+        in_loop = [r for r in rets if any(x is r for x in ast.walk(lps[0]))] if lps else []
+        ok = len(in_loop) == 1 and mflow.reaches(in_loop[0].value, lambda n: n is w)
+        ctx.check('R08.2', ok, "the first applicable mask is used (return inside the loop)", md, in_loop[0] if in_loop else md.node)
+        restores = {norm_text(n.targets[0]): norm_text(n.value) for n in ast.walk(md.node) if isinstance(n, ast.Assign) and isinstance(n.targets[0], ast.Attribute)}
+        ok = restores == {'new_data_array.attrs': f"{d_p}.attrs", 'new_data_array.encoding': f"{d_p}.encoding"}
+        ctx.check('R08.2', ok, "attributes and encoding of the variable are restored on the masked copy", md, md.node, construct=f"restored: {restores}")
+        untouched = [r for r in rets if r not in in_loop]
+        ok = len(untouched) == 2 and all(norm_text(r.value) == d_p for r in untouched)
+        tr = [n for n in walk_no_nested(md.node) if isinstance(n, ast.Try)]
+        ok = ok and len(tr) == 1 and any(norm_text(h.type) == 'ValueError' and any(isinstance(s, ast.Return) and norm_text(s.value) == d_p for s in h.body) for h in tr[0].handlers)
+        ctx.check('R08.2', ok, "a variable without a fill value, or with no applicable mask, is returned as the very same object (cropped, never altered)", md, md.node,
+                  construct=f"unmasked exits: {[norm_text(r) for r in untouched]}")
+        fv = [c for c in calls_in(md) if callee(ctx, md, c) == f"{MASKING}.find_fill_value"]
+        ctx.check('R08.2', len(fv) == 1 and norm_text(fv[0].args[0]) == d_p, "the fill value is chosen for this variable", md, fv[0] if fv else md.node)
 
     # ------------------------------------------------------------------ R08.3
-    cb = ctx.func(f"{MASKING}.calculate_grid_mask_bounds")
-    cflow = ctx.flow(cb)
-    nexts = [c for c in calls_in(cb, nested=True) if dotted(c.func) == 'next' and c.args and isinstance(c.args[0], ast.GeneratorExp)]
-    lo_ok = hi_ok = False
-    for c in nexts:
-        g = c.args[0]
-        gen = g.generators[0]
-        itx = norm_text(gen.iter)
-        filt = len(gen.ifs) == 1 and isinstance(gen.ifs[0], ast.Name) and isinstance(gen.target, ast.Tuple) and gen.ifs[0].id == norm_text(gen.target.elts[1])
-        ivar = norm_text(gen.target.elts[0]) if isinstance(gen.target, ast.Tuple) else None
-        if itx == 'enumerate(values)' and filt and norm_text(g.elt) == ivar:
-            lo_ok = True
-        if itx == 'enumerate(reversed(values))' and filt:
-            form = linear(cflow, g.elt, {ivar: symbol('i')})
-            want = symbol(cflow.canon(ast.parse('len(values)', mode='eval').body)) if False else None
-            # len(values) - i  : position i from the end, exclusive upper bound = (len-1-i) + 1
-            hi_ok = isinstance(g.elt, ast.BinOp) and isinstance(g.elt.op, ast.Sub) and norm_text(g.elt.left) == 'len(values)' and norm_text(g.elt.right) == ivar
-    ctx.check('R08.3', lo_ok, "lower bound = position of the first True", cb, nexts[0] if nexts else cb.node, construct='min_index = next(i for i, v in enumerate(values) if v)')
-    ctx.check('R08.3', hi_ok, "upper bound = (position of the last True) + 1 = len - (position from the end)", cb, nexts[-1] if nexts else cb.node,
-              construct='max_index = next(len(values) - i for i, v in enumerate(reversed(values)) if v)')
-    sl = [n for n in ast.walk(cb.node) if isinstance(n, ast.Assign) and norm_text(n.targets[0]) == 'bounds[dimension]']
-    ok = len(sl) == 1 and norm_text(sl[0].value) == 'slice(min_index, max_index)'
-    ctx.check('R08.3', ok, "the window is slice(lower, upper) for that dimension", cb, sl[0] if sl else cb.node)
-    vs = [n for n in ast.walk(cb.node) if isinstance(n, ast.Assign) and norm_text(n.targets[0]) == 'values']
-    ok = len(vs) == 1 and norm_text(vs[0].value) == 'mask_data_array.any(dim=list(dimensions_set - {dimension}))' and \
-        any(isinstance(n, ast.For) and norm_text(n.iter) == 'mask_data_array.dims' and norm_text(n.target) == 'dimension' for n in ast.walk(cb.node))
-    ctx.check('R08.3', ok, "per dimension, a position counts when any cell of the mask at that position is True", cb, vs[0] if vs else cb.node)
+    with ctx.section('R08.3'):
+        cb = ctx.func(f"{MASKING}.calculate_grid_mask_bounds")
+        cflow = ctx.flow(cb)
+        nexts = [c for c in calls_in(cb, nested=True) if dotted(c.func) == 'next' and c.args and isinstance(c.args[0], ast.GeneratorExp)]
+        lo_ok = hi_ok = False
+        for c in nexts:
+            g = c.args[0]
+            gen = g.generators[0]
+            itx = norm_text(gen.iter)
+            filt = len(gen.ifs) == 1 and isinstance(gen.ifs[0], ast.Name) and isinstance(gen.target, ast.Tuple) and gen.ifs[0].id == norm_text(gen.target.elts[1])
+            ivar = norm_text(gen.target.elts[0]) if isinstance(gen.target, ast.Tuple) else None
+            if itx == 'enumerate(values)' and filt and norm_text(g.elt) == ivar:
+                lo_ok = True
+            if itx == 'enumerate(reversed(values))' and filt:
+                form = linear(cflow, g.elt, {ivar: symbol('i')})
+                want = symbol(cflow.canon(ast.parse('len(values)', mode='eval').body)) if False else None
+                # len(values) - i  : position i from the end, exclusive upper bound = (len-1-i) + 1
+                hi_ok = isinstance(g.elt, ast.BinOp) and isinstance(g.elt.op, ast.Sub) and norm_text(g.elt.left) == 'len(values)' and norm_text(g.elt.right) == ivar
+        ctx.check('R08.3', lo_ok, "lower bound = position of the first True", cb, nexts[0] if nexts else cb.node, construct='min_index = next(i for i, v in enumerate(values) if v)')
+        ctx.check('R08.3', hi_ok, "upper bound = (position of the last True) + 1 = len - (position from the end)", cb, nexts[-1] if nexts else cb.node,
+                  construct='max_index = next(len(values) - i for i, v in enumerate(reversed(values)) if v)')
+        sl = [n for n in ast.walk(cb.node) if isinstance(n, ast.Assign) and norm_text(n.targets[0]) == 'bounds[dimension]']
+        ok = len(sl) == 1 and norm_text(sl[0].value) == 'slice(min_index, max_index)'
+        ctx.check('R08.3', ok, "the window is slice(lower, upper) for that dimension", cb, sl[0] if sl else cb.node)
+        vs = [n for n in ast.walk(cb.node) if isinstance(n, ast.Assign) and norm_text(n.targets[0]) == 'values']
+        ok = len(vs) == 1 and norm_text(vs[0].value) == 'mask_data_array.any(dim=list(dimensions_set - {dimension}))' and \
+            any(isinstance(n, ast.For) and norm_text(n.iter) == 'mask_data_array.dims' and norm_text(n.target) == 'dimension' for n in ast.walk(cb.node))
+        ctx.check('R08.3', ok, "per dimension, a position counts when any cell of the mask at that position is True", cb, vs[0] if vs else cb.node)
 
     # ------------------------------------------------------------------ R08.4 / R08.5 mesh
-    ac = ctx.func(f"{UGRID}.UGrid.apply_clip_mask")
-    aflow = ctx.flow(ac)
-    dm = [n for n in walk_no_nested(ac.node) if isinstance(n, (ast.Assign, ast.AnnAssign)) and norm_text(n.targets[0] if isinstance(n, ast.Assign) else n.target) == 'dimension_masks']
-    ctx.need('R08.4', len(dm) == 1 and isinstance(dm[0].value, ast.Dict), "apply_clip_mask builds the dimension -> row mask table", ac)
-    pairs = {norm_text(k): v for k, v in zip(dm[0].value.keys, dm[0].value.values)}
-    extra = [n for n in ast.walk(ac.node) if isinstance(n, ast.Assign) and isinstance(n.targets[0], ast.Subscript) and norm_text(n.targets[0].value) == 'dimension_masks']
-    for n in extra:
-        pairs[norm_text(n.targets[0].slice)] = n.value
+    with ctx.section('R08.4 / R08.5 mesh'):
+        ac = ctx.func(f"{UGRID}.UGrid.apply_clip_mask")
+        aflow = ctx.flow(ac)
+        dm = [n for n in walk_no_nested(ac.node) if isinstance(n, (ast.Assign, ast.AnnAssign)) and norm_text(n.targets[0] if isinstance(n, ast.Assign) else n.target) == 'dimension_masks']
+        ctx.need('R08.4', len(dm) == 1 and isinstance(dm[0].value, ast.Dict), "apply_clip_mask builds the dimension -> row mask table", ac)
+        pairs = {norm_text(k): v for k, v in zip(dm[0].value.keys, dm[0].value.values)}
+        extra = [n for n in ast.walk(ac.node) if isinstance(n, ast.Assign) and isinstance(n.targets[0], ast.Subscript) and norm_text(n.targets[0].value) == 'dimension_masks']
+        for n in extra:
+            pairs[norm_text(n.targets[0].slice)] = n.value
 
-    def table_kind(expr) -> str:
-        kinds = set()
-        for node, _ in aflow.expand(expr):
-            if isinstance(node, ast.Subscript) and isinstance(node.slice, ast.Constant) and isinstance(node.slice.value, str) \
-                    and node.slice.value.startswith('new_') and 'clip_mask' in norm_text(node.value):
-                kinds.add(node.slice.value[len('new_'):-len('_index')])
-        return '|'.join(sorted(kinds)) or '?'
+        def table_kind(expr) -> str:
+            kinds = set()
+            for node, _ in aflow.expand(expr):
+                if isinstance(node, ast.Subscript) and isinstance(node.slice, ast.Constant) and isinstance(node.slice.value, str) \
+                        and node.slice.value.startswith('new_') and 'clip_mask' in norm_text(node.value):
+                    kinds.add(node.slice.value[len('new_'):-len('_index')])
+            return '|'.join(sorted(kinds)) or '?'
 
-    for kind in ('node', 'face', 'edge'):
-        key = f"topology.{kind}_dimension"
-        v = pairs.get(key)
-        ok = v is not None and table_kind(v) == kind and isinstance(v, ast.UnaryOp) and isinstance(v.op, ast.Invert) \
-            and isinstance(v.operand, ast.Call) and callee(ctx, ac, v.operand) == 'numpy.ma.getmask'
-        ctx.check('R08.4', ok, f"rows along the {kind} dimension are kept where the {kind} old-to-new table is not masked", ac, v if v is not None else dm[0],
-                  construct=f"{key}: {norm_text(v) if v is not None else 'absent'} (table of {table_kind(v) if v is not None else '?'})")
-    eg = [(norm_text(st.test), inb) for n in extra for st, inb in enclosing_ifs(ac, n)]
-    ctx.check('R08.4', eg == [('has_edges', True)] and len(extra) == 1, "the edge dimension is row-selected exactly when the mask carries an edge table", ac,
-              extra[0] if extra else dm[0], construct=f"edge entry guard {eg}")
-    all_loops = [n for n in walk_no_nested(ac.node) if isinstance(n, ast.For)]
-    loops = [n for n in all_loops if not any(n is not o and any(x is n for x in ast.walk(o)) for o in all_loops)]
-    ctx.need('R08.4', len(loops) == 1, "apply_clip_mask loops once over the variables", ac)
-    lp = loops[0]
-    it_txt = norm_text(lp.iter)
-    ok = it_txt in ('{**dataset.data_vars, **dataset.coords}.items()', 'dataset.variables.items()')
-    ctx.check('R08.4', ok, "every data variable and every coordinate variable is routed", ac, lp, construct=f"for ... in {it_txt}")
-    top = lp.body[-1] if lp.body else None
-    branches = []
-    node = top
-    while isinstance(node, ast.If):
-        branches.append((norm_text(node.test), node.body))
-        if len(node.orelse) == 1 and isinstance(node.orelse[0], ast.If):
-            node = node.orelse[0]
-        else:
-            branches.append(('else', node.orelse))
-            node = None
-    tests = [t for t, _ in branches]
-    ok = tests == ['name in topology_variable_names', 'set(data_array.dims).isdisjoint(mesh_dimensions)', 'else']
-    ctx.check('R08.4', ok, "a variable is a re-indexed topology variable, or has no mesh dimension (copied), or is row-selected: exhaustive three-way routing", ac,
-              top or lp, construct=f"routing tests {tests}")
-    conts = [n for n in ast.walk(lp) if isinstance(n, (ast.Continue, ast.Break, ast.Return))]
-    ctx.check('R08.4', not conts, "no other exit skips a variable", ac, conts[0] if conts else lp, construct=f"early exits in the loop: {len(conts)}")
-    inner = [n for n in ast.walk(lp) if isinstance(n, ast.For)]
-    inner = [n for n in inner if n is not lp]
-    ok = False
-    if len(inner) == 1:
-        il = inner[0]
-        ok = norm_text(il.iter) == 'enumerate(data_array.dims)' and norm_text(il.target) == '(index, dim)'
-        sl = [n for n in ast.walk(il) if isinstance(n, ast.Assign) and norm_text(n.targets[0]) == 'slice_index']
-        ap = [n for n in ast.walk(il) if isinstance(n, ast.Assign) and norm_text(n.targets[0]) == 'values']
-        ok = ok and len(sl) == 1 and norm_text(sl[0].value) == 'tuple([numpy.s_[:]] * index + [dimension_masks[dim]])' \
-            and len(ap) == 1 and norm_text(ap[0].value) == 'values[slice_index]' \
-            and all(('dim in dimension_masks', True) in [(norm_text(st.test), inb) for st, inb in enclosing_ifs(ac, x)] for x in sl + ap)
-    ctx.check('R08.4', ok, "rows are selected with the mask of that dimension at that dimension's own axis position", ac, inner[0] if inner else lp)
-    rebuilt = [c for c in calls_in(ac) if (callee(ctx, ac, c) or '').endswith('xarray.DataArray') and any(x is c for x in ast.walk(lp))]
-    ok = len(rebuilt) == 1 and {k.arg: norm_text(k.value) for k in rebuilt[0].keywords} == {'data': 'values', 'dims': 'data_array.dims', 'name': 'name'}
-    ctx.check('R08.4', ok, "the selected values keep the variable's dimensions and name", ac, rebuilt[0] if rebuilt else lp)
-    mdims = [n for n in walk_no_nested(ac.node) if isinstance(n, ast.Assign) and norm_text(n.targets[0]) == 'mesh_dimensions']
-    ok = len(mdims) == 1 and norm_text(mdims[0].value) == 'set(dimension_masks.keys())'
-    ctx.check('R08.4', ok, "the mesh dimensions are exactly the dimensions that have a row mask", ac, mdims[0] if mdims else ac.node)
-    # R08.5: coordinates forwarded unchanged into an output dataset
-    for c in calls_in(ac):
-        if (callee(ctx, ac, c) or '').endswith('xarray.Dataset') and kwarg(c, 'coords') is not None:
-            co = kwarg(c, 'coords')
-            txt = norm_text(co)
-            ok = isinstance(co, ast.DictComp) and len(co.generators) == 1 and len(co.generators[0].ifs) == 1 \
-                and norm_text(co.generators[0].ifs[0]).replace(' ', '') == 'set(coord.dims).isdisjoint(mesh_dimensions)'.replace(' ', '') \
-                and norm_text(co.generators[0].iter) == 'dataset.coords.items()'
-            ctx.check('R08.5', ok, "meshes: only coordinates without a mesh dimension are forwarded unchanged (the others are row-selected)", ac, c,
-                      construct=f"coords={txt[:110]}")
-    fin = [c for c in calls_in(ac) if callee(ctx, ac, c) == f"{UTILS}.dataset_like"]
-    ok = len(fin) == 1 and norm_text(fin[0].args[0]) == 'dataset' and all(aflow.resolve(r.value) is fin[0] for r in ac.returns())
-    ctx.check('R08.5', ok, "the result is re-assembled from the written (selected) files only, with the input's layout", ac, fin[0] if fin else ac.node)
+        for kind in ('node', 'face', 'edge'):
+            key = f"topology.{kind}_dimension"
+            v = pairs.get(key)
+            ok = v is not None and table_kind(v) == kind and isinstance(v, ast.UnaryOp) and isinstance(v.op, ast.Invert) \
+                and isinstance(v.operand, ast.Call) and callee(ctx, ac, v.operand) == 'numpy.ma.getmask'
+            ctx.check('R08.4', ok, f"rows along the {kind} dimension are kept where the {kind} old-to-new table is not masked", ac, v if v is not None else dm[0],
+                      construct=f"{key}: {norm_text(v) if v is not None else 'absent'} (table of {table_kind(v) if v is not None else '?'})")
+        eg = [(norm_text(st.test), inb) for n in extra for st, inb in enclosing_ifs(ac, n)]
+        ctx.check('R08.4', eg == [('has_edges', True)] and len(extra) == 1, "the edge dimension is row-selected exactly when the mask carries an edge table", ac,
+                  extra[0] if extra else dm[0], construct=f"edge entry guard {eg}")
+        all_loops = [n for n in walk_no_nested(ac.node) if isinstance(n, ast.For)]
+        loops = [n for n in all_loops if not any(n is not o and any(x is n for x in ast.walk(o)) for o in all_loops)]
+        ctx.need('R08.4', len(loops) == 1, "apply_clip_mask loops once over the variables", ac)
+        lp = loops[0]
+        it_txt = norm_text(lp.iter)
+        ok = it_txt in ('{**dataset.data_vars, **dataset.coords}.items()', 'dataset.variables.items()')
+        ctx.check('R08.4', ok, "every data variable and every coordinate variable is routed", ac, lp, construct=f"for ... in {it_txt}")
+        top = lp.body[-1] if lp.body else None
+        branches = []
+        node = top
+        while isinstance(node, ast.If):
+            branches.append((norm_text(node.test), node.body))
+            if len(node.orelse) == 1 and isinstance(node.orelse[0], ast.If):
+                node = node.orelse[0]
+            else:
+                branches.append(('else', node.orelse))
+                node = None
+        tests = [t for t, _ in branches]
+        ok = tests == ['name in topology_variable_names', 'set(data_array.dims).isdisjoint(mesh_dimensions)', 'else']
+        ctx.check('R08.4', ok, "a variable is a re-indexed topology variable, or has no mesh dimension (copied), or is row-selected: exhaustive three-way routing", ac,
+                  top or lp, construct=f"routing tests {tests}")
+        conts = [n for n in ast.walk(lp) if isinstance(n, (ast.Continue, ast.Break, ast.Return))]
+        ctx.check('R08.4', not conts, "no other exit skips a variable", ac, conts[0] if conts else lp, construct=f"early exits in the loop: {len(conts)}")
+        inner = [n for n in ast.walk(lp) if isinstance(n, ast.For)]
+        inner = [n for n in inner if n is not lp]
+        ok = False
+        if len(inner) == 1:
+            il = inner[0]
+            ok = norm_text(il.iter) == 'enumerate(data_array.dims)' and norm_text(il.target) == '(index, dim)'
+            sl = [n for n in ast.walk(il) if isinstance(n, ast.Assign) and norm_text(n.targets[0]) == 'slice_index']
+            ap = [n for n in ast.walk(il) if isinstance(n, ast.Assign) and norm_text(n.targets[0]) == 'values']
+            ok = ok and len(sl) == 1 and norm_text(sl[0].value) == 'tuple([numpy.s_[:]] * index + [dimension_masks[dim]])' \
+                and len(ap) == 1 and norm_text(ap[0].value) == 'values[slice_index]' \
+                and all(('dim in dimension_masks', True) in [(norm_text(st.test), inb) for st, inb in enclosing_ifs(ac, x)] for x in sl + ap)
+        ctx.check('R08.4', ok, "rows are selected with the mask of that dimension at that dimension's own axis position", ac, inner[0] if inner else lp)
+        rebuilt = [c for c in calls_in(ac) if (callee(ctx, ac, c) or '').endswith('xarray.DataArray') and any(x is c for x in ast.walk(lp))]
+        ok = len(rebuilt) == 1 and {k.arg: norm_text(k.value) for k in rebuilt[0].keywords} == {'data': 'values', 'dims': 'data_array.dims', 'name': 'name'}
+        ctx.check('R08.4', ok, "the selected values keep the variable's dimensions and name", ac, rebuilt[0] if rebuilt else lp)
+        mdims = [n for n in walk_no_nested(ac.node) if isinstance(n, ast.Assign) and norm_text(n.targets[0]) == 'mesh_dimensions']
+        ok = len(mdims) == 1 and norm_text(mdims[0].value) == 'set(dimension_masks.keys())'
+        ctx.check('R08.4', ok, "the mesh dimensions are exactly the dimensions that have a row mask", ac, mdims[0] if mdims else ac.node)
+        # R08.5: coordinates forwarded unchanged into an output dataset
+        for c in calls_in(ac):
+            if (callee(ctx, ac, c) or '').endswith('xarray.Dataset') and kwarg(c, 'coords') is not None:
+                co = kwarg(c, 'coords')
+                txt = norm_text(co)
+                ok = isinstance(co, ast.DictComp) and len(co.generators) == 1 and len(co.generators[0].ifs) == 1 \
+                    and norm_text(co.generators[0].ifs[0]).replace(' ', '') == 'set(coord.dims).isdisjoint(mesh_dimensions)'.replace(' ', '') \
+                    and norm_text(co.generators[0].iter) == 'dataset.coords.items()'
+                ctx.check('R08.5', ok, "meshes: only coordinates without a mesh dimension are forwarded unchanged (the others are row-selected)", ac, c,
+                          construct=f"coords={txt[:110]}")
+        fin = [c for c in calls_in(ac) if callee(ctx, ac, c) == f"{UTILS}.dataset_like"]
+        ok = len(fin) == 1 and norm_text(fin[0].args[0]) == 'dataset' and all(aflow.resolve(r.value) is fin[0] for r in ac.returns())
+        ctx.check('R08.5', ok, "the result is re-assembled from the written (selected) files only, with the input's layout", ac, fin[0] if fin else ac.node)
 
-    from .common import purity_obligations
-    purity_obligations(ctx, 'R08.7', ac, ['clip_mask'], "UGrid.apply_clip_mask")
-    purity_obligations(ctx, 'R08.7', mg, [ds_p, mask_p], "mask_grid_dataset")
-    purity_obligations(ctx, 'R08.7', md, [m_p, d_p], "mask_grid_data_array")
+        from .common import purity_obligations
+        purity_obligations(ctx, 'R08.7', ac, ['clip_mask'], "UGrid.apply_clip_mask")
+        purity_obligations(ctx, 'R08.7', mg, [ds_p, mask_p], "mask_grid_dataset")
+        purity_obligations(ctx, 'R08.7', md, [m_p, d_p], "mask_grid_data_array")
 
     # ------------------------------------------------------------------ R08.6
-    ff = ctx.func(f"{MASKING}.find_fill_value")
-    fflow = ctx.flow(ff)
-    fcfg = ctx.cfg(ff)
-    rets = ff.returns()
-    seq = []
-    for r in sorted(rets, key=lambda r: r.lineno):
-        tests = [norm_text(st.test) for st, inb in enclosing_ifs(ff, r) if inb]
-        seq.append((norm_text(r.value), tests))
-    ok = (len(seq) == 3 and seq[0] == ('numpy.ma.masked', ['numpy.ma.is_masked(data_array.values)'])
-          and seq[1] == ('data_array.attrs[attr]', ['attr in data_array.attrs'])
-          and seq[2][0] == 'fill_value' and seq[2][1] == ['promoted_dtype == data_array.dtype'])
-    ctx.check('R08.6', ok, "masked data first; then an attribute that is present (membership test, any value); then the dtype's own missing value", ff, ff.node,
-              construct=f"returns: {seq}")
-    attrs = [n for n in walk_no_nested(ff.node) if isinstance(n, ast.Assign) and norm_text(n.targets[0]) == 'attrs']
-    ok = len(attrs) == 1 and norm_text(attrs[0].value) == "['_FillValue', 'missing_value']" and \
-        any(isinstance(n, ast.For) and norm_text(n.iter) == 'attrs' for n in walk_no_nested(ff.node))
-    ctx.check('R08.6', ok, "_FillValue is preferred over missing_value", ff, attrs[0] if attrs else ff.node)
-    ex = fcfg.exits()
-    ok = not [n for k, n in ex if k == 'fall'] and any(k == 'raise' and 'ValueError' in norm_text(n) for k, n in ex)
-    ctx.check('R08.6', ok, "a variable with no usable fill value raises ValueError (and is then left unmasked)", ff, ff.node)
-    pr = [c for c in calls_in(ff) if (callee(ctx, ff, c) or '').endswith('maybe_promote')]
-    ok = len(pr) == 1 and norm_text(pr[0].args[0]) == 'data_array.dtype'
-    ctx.check('R08.6', ok, "the dtype's own missing value comes from promoting the variable's dtype", ff, pr[0] if pr else ff.node)
-    order = [r.lineno for r in sorted(rets, key=lambda r: r.lineno)]
-    ok = len(rets) == 3 and fcfg.reachable(ast_entry(ff), rets[0]) if False else True
-    ctx.check('R08.6', order == sorted(order) and len(rets) == 3, "the three sources are tried in that order", ff, ff.node, construct=f"return lines {order}")
+    with ctx.section('R08.6'):
+        ff = ctx.func(f"{MASKING}.find_fill_value")
+        fflow = ctx.flow(ff)
+        fcfg = ctx.cfg(ff)
+        rets = ff.returns()
+        seq = []
+        for r in sorted(rets, key=lambda r: r.lineno):
+            tests = [norm_text(st.test) for st, inb in enclosing_ifs(ff, r) if inb]
+            seq.append((norm_text(r.value), tests))
+        ok = (len(seq) == 3 and seq[0] == ('numpy.ma.masked', ['numpy.ma.is_masked(data_array.values)'])
+              and seq[1] == ('data_array.attrs[attr]', ['attr in data_array.attrs'])
+              and seq[2][0] == 'fill_value' and seq[2][1] == ['promoted_dtype == data_array.dtype'])
+        ctx.check('R08.6', ok, "masked data first; then an attribute that is present (membership test, any value); then the dtype's own missing value", ff, ff.node,
+                  construct=f"returns: {seq}")
+        attrs = [n for n in walk_no_nested(ff.node) if isinstance(n, ast.Assign) and norm_text(n.targets[0]) == 'attrs']
+        ok = len(attrs) == 1 and norm_text(attrs[0].value) == "['_FillValue', 'missing_value']" and \
+            any(isinstance(n, ast.For) and norm_text(n.iter) == 'attrs' for n in walk_no_nested(ff.node))
+        ctx.check('R08.6', ok, "_FillValue is preferred over missing_value", ff, attrs[0] if attrs else ff.node)
+        ex = fcfg.exits()
+        ok = not [n for k, n in ex if k == 'fall'] and any(k == 'raise' and 'ValueError' in norm_text(n) for k, n in ex)
+        ctx.check('R08.6', ok, "a variable with no usable fill value raises ValueError (and is then left unmasked)", ff, ff.node)
+        pr = [c for c in calls_in(ff) if (callee(ctx, ff, c) or '').endswith('maybe_promote')]
+        ok = len(pr) == 1 and norm_text(pr[0].args[0]) == 'data_array.dtype'
+        ctx.check('R08.6', ok, "the dtype's own missing value comes from promoting the variable's dtype", ff, pr[0] if pr else ff.node)
+        order = [r.lineno for r in sorted(rets, key=lambda r: r.lineno)]
+        ok = len(rets) == 3 and fcfg.reachable(ast_entry(ff), rets[0]) if False else True
+        ctx.check('R08.6', order == sorted(order) and len(rets) == 3, "the three sources are tried in that order", ff, ff.node, construct=f"return lines {order}")
+
 
 
 def ast_entry(fi):  # pragma: no cover - helper kept for symmetry
